@@ -125,7 +125,7 @@ PROPS['C15'] = dict(
           'tree is rebuilt with put() in a generated non-sorted insertion order, serialize() compared with the reference encoder and round-tripped. '
           'Non-trivial iff (bytes) init accepts the buffer, or (trees) the encoding exceeds 1000 bytes or nesting >= 3; distinct = hash(bytes, part).'),
     tiers=dict(
-        quick=[rc(25000, shards=8, max_size=300, corpus=CORPUS), fuzz(100000, shards=8, corpus=CORPUS)],
+        quick=[rc(40000, shards=8, max_size=300, corpus=CORPUS), fuzz(60000, shards=8, corpus=CORPUS)],
         thorough=[rc(500000, shards=6, max_size=600, corpus=CORPUS), fuzz(1000000, shards=10, max_len=2048, corpus=CORPUS)],
     ),
 )
